@@ -166,10 +166,10 @@ func mutate(rng *rand.Rand, cur snapshot, hist []snapshot) (snapshot, string) {
 		n.st.LocalA = (n.st.LocalA + 1 + rng.IntN(3)) % 4
 		return n, fmt.Sprintf("edit a: variant %d", n.st.LocalA)
 	case k == 5 || k == 6:
-		n.st.ConfRoot = (n.st.ConfRoot + 1 + rng.IntN(4)) % 5
+		n.st.ConfRoot = (n.st.ConfRoot + 1 + rng.IntN(7)) % 8
 		return n, fmt.Sprintf("root staticcheck.conf: variant %d", n.st.ConfRoot)
 	case k == 7 || k == 8:
-		n.st.ConfB = (n.st.ConfB + 1 + rng.IntN(4)) % 5
+		n.st.ConfB = (n.st.ConfB + 1 + rng.IntN(7)) % 8
 		return n, fmt.Sprintf("b/staticcheck.conf: variant %d", n.st.ConfB)
 	case k == 9:
 		n.st.TestUses = !n.st.TestUses
@@ -224,7 +224,7 @@ func runHistory(r *vf.Run, h int, bin string, base *baselines, nSteps int) histR
 	shared := filepath.Join(root, "cache-shared")
 	os.MkdirAll(ws, 0o755)
 	os.MkdirAll(shared, 0o755)
-	cur := snapshot{st: gen.WSState{LocalB: rng.IntN(4), LocalA: rng.IntN(4), Deprecated: rng.IntN(2) == 0, GoVersion: "1.22"}, fl: flags{Tests: true}}
+	cur := snapshot{st: gen.WSState{LocalB: rng.IntN(4), LocalA: rng.IntN(4), Deprecated: rng.IntN(2) == 0, GoVersion: "1.22"}, fl: flags{Tests: true, Checks: checksV[(h+1)%len(checksV)]}}
 	var hist []snapshot
 	files := map[string]string{}
 	prevOut := []byte(nil)
